@@ -10,6 +10,7 @@ do not share testbenches; and testbenches with zero / two / bus ports.
   (P) on the real SimInput: top names the testbench, which is in the package exactly once; one entry per attribute; all analysis names
       distinct whenever the designer's are; every numeric field is the double nearest the exact value (against fractions.Fraction).
 """
+import copy
 import json
 import random
 from decimal import Decimal
@@ -149,8 +150,19 @@ def gen_sim(rng, k):
     tbk = "good" if rng.random() < 0.82 else rng.choice(["bus", "noport", "twoports", "bundleport", "bundleport"])
     pool = list(NAMES)
     rng.shuffle(pool)
-    return {"tb": {"kind": tbk, "name": f"tb{k}"}, "style": rng.choice(["proc", "class", "methods", "add"]),
-            "attrs": [gen_attr(rng, pool) for _ in range(rng.randint(0, 8))]}
+    sim = {"tb": {"kind": tbk, "name": f"tb{k}"}, "style": rng.choice(["proc", "class", "methods", "add"]),
+           "attrs": [gen_attr(rng, pool) for _ in range(rng.randint(0, 8))]}
+    if sim["style"] in ("proc", "add"):
+        # one unnamed analysis object listed more than once: again at the top level, or as the inner of a sweep / Monte-Carlo
+        tops = [i for i, a in enumerate(sim["attrs"]) if a["t"] == "an" and a["a"]["name"] is None and a["a"]["k"] not in ("sweep", "monte")]
+        if tops and rng.random() < 0.4:
+            i = rng.choice(tops)
+            if rng.random() < 0.5:
+                sim["attrs"].append(dict(copy.deepcopy(sim["attrs"][i]), same_as=i))
+            else:
+                inner = dict(copy.deepcopy(sim["attrs"][i]["a"]), ref_top=i)
+                sim["attrs"].append({"t": "an", "a": {"k": "monte", "name": None, "npts": 3, "inner": [inner]}})
+    return sim
 
 
 def make_cases(rng, n):
@@ -212,8 +224,9 @@ def opt_value(o):
 
 def class_keys(sim):
     """attribute names a class-style definition gives: k0, k1, …, one of them possibly `_`"""
-    keys = [f"k{i}" for i in range(len(sim["attrs"]))]
-    return keys
+    n = len(sim["attrs"])
+    # some keys start with an underscore (only the key `_` itself means "leave unnamed")
+    return [(f"_k{i}" if (i * 7 + n) % 4 == 0 else f"k{i}") for i in range(n)]
 
 
 def model_line(sim, tb_ports, tb_name):
@@ -284,8 +297,11 @@ def build_tb(spec, cache):
     return t
 
 
-def build_attr(a, t):
+def build_attr(a, t, built=()):
     import hdl21.sim as hs
+
+    if a.get("same_as") is not None:
+        return built[a["same_as"]]  # the very same (unnamed) analysis object, listed again
 
     def sweep(s):
         if s["k"] == "linear":
@@ -310,9 +326,10 @@ def build_attr(a, t):
             return hs.Noise(output=out, input_source=t.v if x["src"] == "inst" else "v", sweep=hs.LogSweep(py_num(x["start"]), py_num(x["stop"]), x["npts"]), name=x["name"])
         if k == "custom":
             return hs.CustomAnalysis(cmd=x["cmd"], name=x["name"])
+        inner = lambda: [(built[i["ref_top"]] if i.get("ref_top") is not None else an(i)) for i in x["inner"]]
         if k == "sweep":
-            return hs.SweepAnalysis(inner=[an(i) for i in x["inner"]], var=var(), sweep=sweep(x["sweep"]), name=x["name"])
-        return hs.MonteCarlo(inner=[an(i) for i in x["inner"]], npts=x["npts"], name=x["name"])
+            return hs.SweepAnalysis(inner=inner(), var=var(), sweep=sweep(x["sweep"]), name=x["name"])
+        return hs.MonteCarlo(inner=inner(), npts=x["npts"], name=x["name"])
 
     if a["t"] == "an":
         return an(a["a"])
@@ -348,7 +365,9 @@ def build_sim(spec, cache):
     import dataclasses
 
     t = build_tb(spec["tb"], cache)
-    attrs = [build_attr(a, t) for a in spec["attrs"]]
+    attrs = []
+    for a in spec["attrs"]:
+        attrs.append(build_attr(a, t, attrs))
     style = spec["style"]
     if style == "proc":
         return hs.Sim(tb=t, attrs=attrs)
